@@ -38,8 +38,41 @@ def bounded(tier, seed):
     f = header_variant_case()
     if f:
         return n, f, {'case': 'header field variants'}
+    n += 1
+    f = inferred_content_case()
+    if f:
+        return n, f, {'case': 'variants of plain Python values'}
     m, f, inp = H.bounded_roundtrip(tier, seed)
     return n + m, f, inp
+
+
+def inferred_content_case():
+    """'variants carry the signature of their content' when the content is a plain Python value: instances of the plain types AND of their
+    subclasses that declare no DBus type (enum members, application string / number / byte-array classes) are written as a variant of
+    the base type - byte for byte what the specification gives for that variant"""
+    import enum
+    from txdbus import marshal
+    from . import wire_ref as W
+    Colour = enum.IntEnum('Colour', 'RED GREEN')
+    Flag = enum.IntFlag('Flag', 'A B')
+    Name = type('Name', (str,), {})
+    Ratio = type('Ratio', (float,), {})
+    Blob = type('Blob', (bytearray,), {})
+    cases = [(7, 'i', 7), (True, 'b', True), (1.5, 'd', 1.5), ('s', 's', 's'), (bytearray(b'ab'), 'ay', [97, 98]),
+             (Colour.GREEN, 'i', 2), (Flag.A | Flag.B, 'i', 3), (Name('n'), 's', 'n'), (Ratio(2.5), 'd', 2.5), (Blob(b'xy'), 'ay', [120, 121]),
+             ([Colour.RED, Colour.GREEN], 'ai', [1, 2]), ({'k': Name('v')}, 'a{ss}', {'k': 'v'})]
+    for pyv, vsig, plain in cases:
+        for le in (True, False):
+            for off in (0, 3):
+                want = W.encode('v', [W.Variant(vsig, plain)], off, le)
+                try:
+                    n_, chunks = marshal.marshal('v', [pyv], off, le)
+                except Exception as e:
+                    return 'marshal of the Python value %r (a %s) as a variant raised %s: %s' % (pyv, type(pyv).__name__, type(e).__name__, e)
+                got = b''.join(chunks)
+                if got != want or n_ != len(want):
+                    return 'the Python value %r (a %s) as a variant at offset %d: bytes %s, the specification gives %s for a variant of type %r' % (pyv, type(pyv).__name__, off, got.hex(), want.hex(), vsig)
+    return None
 
 
 def header_variant_case():
